@@ -497,7 +497,8 @@ def load(f, **options):  # type: (typing.IO, **typing.Any) -> canmatrix.CanMatri
                                 line=line,
                             )
                         frame.mux_names[multiplexor] = sig_name
-                        index_offset = 2
+                        # Mux=<name> <start>,<length> <value> [switches]: the switches start at index 3
+                        index_offset = 1
 
                     for switch in temp_array[index_offset + 2:]:
                         if switch == "-m":
